@@ -34,7 +34,7 @@ type c01Op struct {
 }
 
 func c01() {
-	R := vr.New("C01", "history", "seeded operation histories (add/update/set-admin/remove/failed ops incl. add/update failing half-way because <base>/.tmp is not a directory/default switch/set removal) over 3-6 users on stores with 4 parameter sets; after every step the whole observable state is compared with a sequential reference model and near-miss passwords are probed. Non-trivial: a history with >=2 users, >=1 successful update and >=1 failed operation; distinct by operation sequence hash")
+	R := vr.New("C01", "history", "seeded operation histories (add/update/set-admin/remove/failed ops, records whose time field another tool set to the future / 0 / the past, add/update failing half-way because <base>/.tmp is not a directory/default switch/set removal) over 3-6 users on stores with 4 parameter sets; after every step the whole observable state is compared with a sequential reference model and near-miss passwords are probed. Non-trivial: a history with >=2 users, >=1 successful update and >=1 failed operation; distinct by operation sequence hash")
 	defer R.Write()
 	nh := vr.Pick(150, 1200)
 	nops := vr.Pick(25, 40)
@@ -172,14 +172,34 @@ func c01History(R *vr.Result, rng *rand.Rand, id, dir string, nops int) {
 			} else {
 				nFail++
 			}
-		case k < 85: // remove
+		case k < 82: // remove
 			op = c01Op{Op: "remove", User: u}
 			if p := vr.Safe(func() { d.RemoveUser(u) }); p != "" {
 				viol("c01:panic:remove", "RemoveUser panicked: "+p)
 			}
 			hist = append(hist, op)
 			m.exists = false
-		case k < 90: // add / update that fails half-way: <base>/.tmp is not a directory while the call runs
+		case k < 86: // another tool (a sync from a host whose clock differs) rewrites only the time field of the record
+			if !m.exists {
+				continue
+			}
+			ext := ".user"
+			if m.admin {
+				ext = ".admin"
+			}
+			p := filepath.Join(base, u+ext)
+			data, err := os.ReadFile(p)
+			f := strings.SplitN(string(data), ":", 3)
+			if err != nil || len(f) != 3 {
+				continue
+			}
+			nowT := time.Now().Unix()
+			T := []int64{nowT + 90, nowT + 86400, 4102444800, 0, 1, nowT - 10*365*86400}[rng.Intn(6)]
+			os.WriteFile(p, []byte(f[0]+":"+fmt.Sprint(T)+":"+f[2]), 0600) //nolint:errcheck
+			m.tLo, m.tHi = T, T
+			hist = append(hist, c01Op{Op: "restamp", User: u, Res: fmt.Sprint(T)})
+			R.Count("restamped_records", 1)
+		case k < 91: // add / update that fails half-way: <base>/.tmp is not a directory while the call runs
 			pw := ref.Password(rng)
 			tmp := filepath.Join(base, ".tmp")
 			os.RemoveAll(tmp)                          //nolint:errcheck
